@@ -291,6 +291,23 @@ def run_header(ctx) -> RuleResult:
                            construct="HEADER_REGEX"))
         result.floor = 1
         return result
+    # nothing but the formatted template (and optional anchors / white space) makes up the regex: the text in
+    # front of the header on its line is the caller-chosen ``comments`` prefix, which the regex cannot hard-code
+    inside = {id(n) for n in ast.walk(fmt_call)}
+    for node in ast.walk(regex_b.node.value):
+        if isinstance(node, ast.Constant) and isinstance(node.value, str) and id(node) not in inside:
+            rest = node.value
+            for token in ("^", "$", "\\s*", "\\s+", "\\s", " *", " +", " ", "(?m)", "(?s)"):
+                rest = rest.replace(token, "")
+            ok_extra = rest == ""
+            result.ob("HEADER_REGEX adds no literal text around the template", ok_extra, lmod.loc(node), repr(node.value))
+            if not ok_extra:
+                result.add(Finding(
+                    "R-HEADER", lmod, "<module>", node,
+                    f"HEADER_REGEX hard-codes the literal {node.value!r} next to the template: the text around the header "
+                    f"(the comment prefix) is chosen by the caller of savetxt/loadtxt (comments=...), so files written with "
+                    f"another prefix are recognised as numpoly files but no longer match",
+                    construct="HEADER_REGEX: extra literal"))
     fragments: Dict[str, str] = {}
     for kw in fmt_call.keywords:
         if kw.arg and isinstance(kw.value, ast.Constant):
